@@ -1,7 +1,7 @@
 package filesystem
 
 import (
-	"bufio"
+	"bytes"
 	"errors"
 	"hash"
 	"os"
@@ -46,26 +46,29 @@ func (s *IndexStorage) SetIndex(idx *index.Index) (err error) {
 }
 
 func (s *IndexStorage) writeIndex(idx *index.Index) (err error) {
+	var encOpts []index.Option
+	if s.skipHash {
+		encOpts = append(encOpts, index.WithSkipHash())
+	}
+
+	// Encode into memory first: IndexWriter truncates the file in place,
+	// so an index the encoder refuses (unsupported version, timestamps
+	// it cannot represent) must be found out before the file is opened.
+	var buf bytes.Buffer
+	e := index.NewEncoder(&buf, s.h, encOpts...)
+	if err := e.Encode(idx); err != nil {
+		return err
+	}
+
 	f, err := s.dir.IndexWriter()
 	if err != nil {
 		return err
 	}
 
 	defer ioutil.CheckClose(f, &err)
-	bw := bufio.NewWriter(f)
-	defer func() {
-		if e := bw.Flush(); err == nil && e != nil {
-			err = e
-		}
-	}()
 
-	var encOpts []index.Option
-	if s.skipHash {
-		encOpts = append(encOpts, index.WithSkipHash())
-	}
-
-	e := index.NewEncoder(bw, s.h, encOpts...)
-	return e.Encode(idx)
+	_, err = f.Write(buf.Bytes())
+	return err
 }
 
 // Index reads the index from disk, using the cache when available.
